@@ -45,13 +45,21 @@ for p in paths:
     an = cov._analyze(p)
     arcs_missing = sorted(an.arcs_missing()) if hasattr(an, "arcs_missing") else []
     src = open(p).read().splitlines()
+    # only lines inside function bodies count (module / class level statements ran at import time, before the
+    # measurement started); printing is not behaviour
+    import ast
+    inside = set()
+    for node in ast.walk(ast.parse(open(p).read())):
+        if isinstance(node, (ast.FunctionDef, ast.AsyncFunctionDef)) and node.body:
+            inside.update(range(node.body[0].lineno, node.end_lineno + 1))
+    missing = [ln for ln in missing if ln in inside and not src[ln - 1].strip().startswith(("print(", "f\"", "\"", ")"))]
+    arcs_missing = [(a, b) for a, b in arcs_missing if a in inside and a not in missing and b > 0 and b not in missing
+                    and "self.silent" not in src[a - 1]]
     out[p] = {"statements": len(statements), "missing": missing, "branches_missing": arcs_missing}
     print(f"== {p}: {len(statements)} statements, {len(missing)} never executed, {len(arcs_missing)} branch arcs never taken")
     for ln in missing:
         print(f"   {ln:4d}  {src[ln-1].strip()[:110]}")
     for a, b in arcs_missing:
-        if a in missing or (b > 0 and b in missing):
-            continue
         print(f"   arc {a}->{b}:  {src[a-1].strip()[:90]}")
 os.makedirs("/verif/coverage", exist_ok=True)
 json.dump({"property": pid, "tier": tier, "cases": len(cases), "files": out}, open(f"/verif/coverage/{pid}.json", "w"), indent=1)
